@@ -23,7 +23,7 @@ fn gen_def(p: &mut Pool) -> OptSpec {
             fields.push(p.named_field());
         }
     }
-    if p.rng.chance(1, 6) && fields.len() < 9 {
+    if p.rng.chance(1, 4) && fields.len() < 9 {
         // adjacent subcommand chain: `cmd1 --a cmd2 --b cmd1 ..`
         fields.push(p.adjacent_command_chain());
     } else if p.rng.chance(1, 2) {
@@ -113,7 +113,17 @@ fn block_tokens(spec: &Spec, v: &V, out: &mut Vec<(Vec<Id>, Vec<Vec<u8>>)>) {
                 block_tokens(b, x, out);
             }
         }
-        (Spec::Cmd(c), V::Field(_, x)) => block_tokens(&c.opts.root, x, out),
+        (Spec::Cmd(c), V::Field(_, x)) => {
+            if c.adjacent {
+                // the items of an adjacent command are one block as well
+                let mut items = Vec::new();
+                c.opts.root.level_items(&mut items);
+                let mut toks = Vec::new();
+                leaves(x, &mut toks);
+                out.push((items.iter().map(|i| i.id).collect(), toks));
+            }
+            block_tokens(&c.opts.root, x, out)
+        }
         _ => {}
     }
 }
@@ -127,6 +137,10 @@ fn contiguity_violation(spec: &OptSpec, argv: &[Vec<u8>], v: &V) -> Option<Strin
     }
     // where does each value token of the whole result sit on the line
     let find = |tok: &[u8]| -> Option<usize> {
+        // a value that is written twice (a word equal to a command name) cannot be placed
+        if argv.iter().filter(|a| a.as_slice() == tok).count() > 1 {
+            return None;
+        }
         argv.iter().position(|a| a == tok).or_else(|| {
             argv.iter().position(|a| {
                 a.len() > tok.len()
@@ -218,6 +232,61 @@ struct Broken {
 
 fn break_blocks(spec: &OptSpec, units: &[U], rng: &mut Rng) -> Vec<Broken> {
     let mut out = Vec::new();
+    // an item of the enclosing level moved inside the block of an adjacent command
+    let names: Vec<usize> = (0..units.len())
+        .filter(|i| matches!(units[*i].kind, UKind::CmdName { .. }))
+        .collect();
+    if !names.is_empty() {
+        let ci = *rng.pick(&names);
+        let d = units[ci].depth;
+        let end = (ci + 1..units.len())
+            .find(|i| units[*i].depth <= d)
+            .unwrap_or(units.len());
+        let outer: Vec<usize> = (0..units.len())
+            .filter(|i| {
+                (*i < ci || *i >= end)
+                    && units[*i].depth == d
+                    && units[*i].block.is_none()
+                    && matches!(units[*i].kind, UKind::Flag { .. } | UKind::Arg { .. })
+            })
+            .collect();
+        if end - ci >= 3 && !outer.is_empty() {
+            let oi = *rng.pick(&outer);
+            let at = rng.range(ci + 2, end - 1);
+            let mut m = units.to_vec();
+            let mut o = m.remove(oi);
+            // rendered next to the command's own items
+            o.depth = d + 1;
+            let at = if oi < at { at - 1 } else { at };
+            m.insert(at, o);
+            out.push(Broken {
+                units: m,
+                kind: "command-block-interrupted-by-outer-item",
+                sure: false,
+            });
+        }
+        if end - ci >= 2 {
+            let at = rng.range(ci + 1, end);
+            let mut m = units.to_vec();
+            m.insert(
+                at,
+                U {
+                    kind: UKind::Flag {
+                        item: 0,
+                        names: Names::long(FOREIGN_LONG),
+                    },
+                    depth: d + 1,
+                    block: None,
+                    after_dd: false,
+                },
+            );
+            out.push(Broken {
+                units: m,
+                kind: "command-block-with-foreign-item",
+                sure: true,
+            });
+        }
+    }
     let mut blocks: Vec<u32> = units.iter().filter_map(|u| u.block).collect();
     blocks.sort_unstable();
     blocks.dedup();
